@@ -108,6 +108,15 @@ claim("C06",
       "the clang CFG",
       "DESIGN.md section 3, C06")
 
+claim("C13",
+      "Thin: two path clauses on the CFG of the interactive drivers that are necessary for 'a rejected form leaves the "
+      "session as if it had not been entered': the binder's undo is called on every error exit after scope binding in loop "
+      "mode, and each loop iteration closes and re-opens the message system and re-arms the recovery jump. Equality of "
+      "interactive and batch output is a run-time property and is not decided.",
+      "Trusted: clang 14 CFG; path search is path-insensitive apart from the stated fintMode == FINT_LOOP assumption.",
+      "must-pass-through path rules on the clang CFG",
+      "DESIGN.md section 3, C13")
+
 PENDING_REASON = "check designed in DESIGN.md but not yet built in this tree; not claimed until it runs"
 
 
